@@ -821,10 +821,50 @@ def err_name(e):
     return "exc:" + type(e).__name__
 
 
-def run_gjk(sA, sB, rec=None, **kw):
-    """real gjk.gjk on a pair of specs -> dict(result|err, steps, ccp)"""
+_WARM_P = np.array([[0.36, 0.48, -0.8], [-0.8, 0.6, 0.0], [0.48, 0.64, 0.6]])
+
+
+def warm_spec(s):
+    """the same shape at another pose (rotated by a fixed rotation, shifted): where a collider is built and queried
+    before it is moved to the pose of the scene"""
+    w = dict(s)
+    w["R"] = (_WARM_P @ np.array(s["R"], dtype=float)).tolist()
+    t = np.array(s["t"], dtype=float)
+    w["t"] = [float(-t[1] + 0.5), float(t[2] + 1.0), float(t[0] - 2.0)]
+    return w
+
+
+def can_move(s):
+    return s["type"] != "hull"          # ConvexHullVertices has no pose
+
+
+def make_moved_collider(s, other):
+    """collider built at warm_spec(s), queried once against `other` (fills every cache a support function may keep),
+    then moved to the pose of s by update_pose: by the library's contract it now equals make_collider(s)"""
     from distance3d import gjk
-    A, B = make_collider(sA), make_collider(sB)
+    if not can_move(s):
+        return make_collider(s)
+    c = make_collider(warm_spec(s))
+    try:
+        with np.errstate(all="ignore"):
+            gjk.gjk(c, other)
+    except Exception:  # noqa
+        pass
+    c.update_pose(pose_of(np.array(s["R"], dtype=float), np.array(s["t"], dtype=float)))
+    return c
+
+
+def run_gjk(sA, sB, rec=None, moved=False, **kw):
+    """real gjk.gjk on a pair of specs -> dict(result|err, steps, ccp); moved: both colliders are constructed at another
+    pose, queried, and brought to the scene's pose with update_pose before the query that is judged"""
+    from distance3d import gjk
+    if moved:
+        A = make_moved_collider(sA, make_collider(sB))
+        B = make_moved_collider(sB, make_collider(sA))
+        if rec is not None:
+            rec.take()
+    else:
+        A, B = make_collider(sA), make_collider(sB)
     out = {}
     try:
         with np.errstate(all="ignore"):
@@ -1580,8 +1620,12 @@ def search(ctx):
     n = ctx.budget(700, 12000) * (2 if ctx.extra.get("search_boost") else 1)
     scenes = gen_scenes(ctx, n // 2, n // 2)
     hist = {}
-    for sA, sB, info, stream in scenes:
-        res = run_gjk(sA, sB)
+    for idx, (sA, sB, info, stream) in enumerate(scenes):
+        moved = idx % 4 == 3 and (can_move(sA) or can_move(sB))
+        if moved:
+            info = dict(info, moved=True)
+        res = run_gjk(sA, sB, moved=moved)
+        ctx.branch("collider-history", "moved-by-update_pose" if moved else "fresh")
         bad, facts = oracle_pair(sA, sB, info, res)
         key = (stream, sA["type"] + ("+m" if sA.get("margin") else ""), sB["type"] + ("+m" if sB.get("margin") else ""))
         ctx.count("search:" + stream, key=str((sA, sB)), nontrivial=(info.get("mode") != "F:identical-spheres"),
@@ -1592,7 +1636,7 @@ def search(ctx):
         if facts.get("ub", 0) - facts.get("lb", 0) > 0.25e-5 * facts.get("L", 1):
             ctx.extra["inconclusive_brackets"] = ctx.extra.get("inconclusive_brackets", 0) + 1
         for what, obs, exp in bad:
-            ctx.fail("gjk.gjk:" + what, {"A": sA, "B": sB, "info": info}, obs, exp,
+            ctx.fail("gjk.gjk%s:" % (" after update_pose" if moved else "") + what, {"A": sA, "B": sB, "info": info}, obs, exp,
                      "membership predicates + verified bracket [lb=%r, ub=%r], L=%r" % (
                          facts.get("lb"), facts.get("ub"), facts.get("L")))
     ctx.extra["search_modes"] = hist
@@ -1610,7 +1654,7 @@ def replay(ctx, payload):
         print("replay file names no collider pair:", [b.get("name") for b in payload.get("broken", [])])
         return False
     sA, sB, info = args["A"], args["B"], args.get("info", {})
-    res = run_gjk(sA, sB)
+    res = run_gjk(sA, sB, moved=bool(info.get("moved")))
     bad, facts = oracle_pair(sA, sB, info, res)
     print("result:", res.get("res", res.get("err")), "facts:", facts)
     for what, obs, exp in bad:
